@@ -33,6 +33,7 @@ def step (s : DState) (line : String) : DState × String :=
   | some ("kxattr", _) => (s, kxattr toks)
   | some ("k13big", _) => (s, k13big toks)
   | some ("kmuxfid", _) => (s, kmuxfid toks)
+  | some ("kstale", _) => (s, kstale toks)
   | some ("kchunk", _) => (s, kchunk toks)
   | some ("kneg", _) => (s, kneg toks)
   | some ("klfs", _) => (s, klfs toks)
